@@ -587,6 +587,10 @@ def run_c08(ctx):
         # layout-level rewrites: whitespace, comments, separators
         pairs.append(("whitespace+comments", a, textgen.relayout(a, rng, comments=0.2)))
         pairs.append(("separators", a, re.sub(r";(\s*\n)", r"\1", a)))
+        if "//" not in a:
+            # line breaks are white space: the whole program on one line, and every definition on a line of its own
+            pairs.append(("one-line", a, " ".join(textgen.tokens_of(a)) + "\n"))
+            pairs.append(("one-line", a, re.sub(r"\n(?!(root |packet |options|MetaData))", " ", a)))
         # several rewrites at once
         q = copy.deepcopy(p)
         for name, fn in rng.sample(REWRITES, 3):
